@@ -147,6 +147,9 @@ def dry_vs_real_fetch(rng, driver):
 
 def run(chk, driver, tier):
     rng = chk.rng
+    # the LEGACY engine end to end: --dry changes nothing, its printed diff applied to the files gives what the real run writes
+    import props.v1e2e as v1e2e
+    v1e2e.run(chk, 300 if tier == "thorough" else 30, driver, faults=0.2)
     # the COMPOSED model of the whole command (Model/Update.lean, theorems Props/Update.lean) against the real CLI: exit code, event trace and
     # every configured file afterwards, on generated projects x the flag/config lattice x tag and status listings x faults x failure positions
     import props.updfull as updfull
